@@ -534,7 +534,62 @@ def count_backward(sg, root, base_objects=None, budget=None):
 WORK_PARTS = ['line', 'call', 'line_out', 'c_call', 'hash_eq', 'gc_scanned']
 
 
+# ---- FOOTPRINT PROBE: what one tensor occupies does not depend on how many operations came before it ----------------
+_FOOTPRINT = []
+FOOTPRINT_SIZES = (8, 16, 32, 64, 128)
+
+def footprint_failure():
+    """Run once per process, before the first graph of thousands of nodes is built: chains of k = 8 … 128 operations over two
+    leaves (named and unnamed, tracked and untracked, through a shared operand / two operands / a Python scalar).  The bytes alive
+    after an untracked chain may not depend on k; after a tracked chain they may grow like k.  A tree on which they multiply from
+    operation to operation is reported here with this small input — the work / loop families are then answered with this failure
+    instead of being run at sizes that would exhaust the machine before any verdict."""
+    if _FOOTPRINT: return _FOOTPRINT[0]
+    sg = common.impl(); T = sg.Tensor
+    was = tracemalloc.is_tracing()
+    if was: tracemalloc.stop()
+    found = None
+    def build(k, tracked, named, shape):
+        a = T(np.ones(3), requires_grad=tracked, **({'name': 'a'} if named else {}))
+        b = T(np.full(3, .5), requires_grad=tracked, **({'name': 'b'} if named else {}))
+        x = a
+        for _ in range(k):
+            x = (x * b + x) if shape == 'x*b + x' else (x * b) if shape == 'x*b' else (x * 0.5)
+        return x
+    try:
+        for tracked in (False, True):
+            for named in (True, False):
+                for shape in ('x*b + x', 'x*b', 'x*0.5'):
+                    b8 = None
+                    for k in FOOTPRINT_SIZES:
+                        gc.collect(); tracemalloc.start()
+                        x = build(k, tracked, named, shape)
+                        gc.collect(); cur = tracemalloc.get_traced_memory()[0]; tracemalloc.stop()
+                        del x
+                        if b8 is None: b8 = cur; continue
+                        allowed = (b8 + 16 * 1024) if not tracked else int(2.5 * (k / 8) * b8) + 32 * 1024
+                        if cur > allowed:
+                            desc = f"x = a; repeat k times: x = {shape}   (a, b: {'named' if named else 'unnamed'} leaves of 3 elements, requires_grad={tracked})"
+                            found = {'key': {'cls': 'memory' if not tracked else 'footprint', 'family': 'footprint probe'},
+                                     '_case': {'kind': 'footprint', 'tracked': tracked, 'named': named, 'step': shape, 'k': k},
+                                     'what': f"{desc}: {b8} bytes alive after k=8 operations, {cur} after k={k}" +
+                                             (" — the operands are untracked, what stays alive may not depend on the number of steps" if not tracked else
+                                              f" — more than x{cur / max(b8, 1):.1f} for x{k / 8:.0f} the recorded operations: graphs of tens of thousands of operations cannot be held")}
+                            raise StopIteration
+    except StopIteration:
+        pass
+    except Exception:
+        found = None          # a tree on which the probe itself cannot run is judged by the families
+    finally:
+        if tracemalloc.is_tracing(): tracemalloc.stop()
+        if was: tracemalloc.start()
+    _FOOTPRINT.append(found)
+    return found
+
+
 def work_failure(c):
+    fp = footprint_failure()
+    if fp: return fp
     sg = common.impl()
     retain, passes, between = c.get('retain', WORK_RETAIN[0]), c.get('passes', 1), c.get('between', WORK_BETWEEN[0])
     how = '' if passes == 1 and retain == WORK_RETAIN[0] else f" [backward() called {passes} times on the same graph; {retain}; between the calls: {between}]"
@@ -987,6 +1042,8 @@ def loop_failure(c):
     """run the case's untracked loop for a warm-up, then n steps (phase A), then 3n more (phase B); nothing may have grown in B.
     Every execution in one process uses step numbers no earlier execution has used (the first one starts at the case's `t0`): what a
     memoising table already holds would otherwise hide its growth from a re-run of the same case."""
+    fp = footprint_failure()
+    if fp: return fp
     sg = common.impl()
     T = sg.Tensor
     n, t = c['n'], c['t0'] + 10 ** 7 * _LOOP_RUNS[0]
@@ -997,8 +1054,20 @@ def loop_failure(c):
                                                           f"vectors of {c['d']}; step numbers from {first}): " + what}
     try:
         run, st = _loop_runner(sg, c)
-        run(t, 20); t += 20
+        # the first 20 steps one at a time under a byte budget: a tree on which what one step keeps alive multiplies from step to
+        # step (bytes doubling per step) is reported after a few steps, before phases A / B would exhaust the machine
         was = tracemalloc.is_tracing()
+        tracemalloc.start()
+        base = None
+        for k_ in range(20):
+            run(t, 1); t += 1
+            cur = tracemalloc.get_traced_memory()[0]
+            if k_ == 3: base = cur
+            if base is not None and cur > base + (96 << 20):
+                tracemalloc.stop()
+                if was: tracemalloc.start()
+                return fail('memory', f'{base} bytes allocated and still alive after 4 steps, {cur} after {k_ + 1} steps: what a step keeps alive grows from step to step')
+        tracemalloc.stop()
         tracemalloc.start()
         run(t, n); t += n
         gc.collect(); memA = tracemalloc.get_traced_memory()[0]
@@ -1039,6 +1108,9 @@ def loop_failure(c):
 
 
 def oracle(c):
+    if c['kind'] == 'footprint':
+        f = footprint_failure()
+        return dict({k: v for k, v in f.items() if k != '_case'}, case=f['_case']) if f else None
     if c['kind'] == 'runtime':
         f = runtime_residue()
         return dict(f, case={'kind': 'runtime'}) if f else None
@@ -1052,7 +1124,7 @@ def oracle(c):
                 if f2:
                     c, f = c2, f2
                     break
-        return dict(f, case={k: v for k, v in c.items() if not k.startswith('_') and k != 'desc'}) if f else None
+        return dict({k: v for k, v in f.items() if k != '_case'}, case=f.get('_case') or {k: v for k, v in c.items() if not k.startswith('_') and k != 'desc'}) if f else None
     if c['kind'] == 'untracked':
         f = refs_failure(c)
         if f: return f
